@@ -2,6 +2,7 @@
    Statements only. [f] is any fuel >= 1, [rest] any suffix: the reader ends exactly at [rest]. *)
 From Coq Require Import List NArith ZArith.
 From TarsV Require Import Base.Hex Codec.Wire Codec.Skip Codec.Prim Codec.PrimProofs.
+From TarsV Require Xlate.ReaderEquiv.
 From TarsV Require Xlate.CodecEquiv.
 Import ListNotations.
 Open Scope N_scope.
